@@ -43,6 +43,7 @@
 #undef private
 #include "transit_data.hpp"
 #include "calculator.hpp"
+#include "result_to_v2.hpp"
 
 using namespace TrRouting;
 
@@ -275,6 +276,71 @@ static void printRoute(const SingleCalculationResult &r) {
   }
 }
 
+// The same text as printRoute, but read back from the JSON the /v2/route renderer (result_to_v2.cpp) produces for the
+// route: every route of every operation is rendered and compared with the result object, so that the rendering layer is
+// covered at L2 volume (field mapping, order of routes and steps).
+static std::string routeTextFromJson(const nlohmann::json &j) {
+  std::ostringstream o;
+  static const char *TOTALS[] = {"departureTime", "arrivalTime", "totalTravelTime", "totalDistance", "totalInVehicleTime",
+    "totalInVehicleDistance", "totalNonTransitTravelTime", "totalNonTransitDistance", "numberOfBoardings", "numberOfTransfers",
+    "transferWalkingTime", "transferWalkingDistance", "accessTravelTime", "accessDistance", "egressTravelTime", "egressDistance",
+    "transferWaitingTime", "firstWaitingTime", "totalWaitingTime"};
+  o << "route ok";
+  for (const char *k : TOTALS) o << " " << j.at(k).get<long long>();
+  boost::uuids::string_generator gen;
+  for (const auto &s : j.at("steps")) {
+    std::string a = s.at("action").get<std::string>();
+    if (a == "walking") {
+      std::string t = s.at("type").get<std::string>();
+      int k = t == "access" ? 0 : (t == "egress" ? 1 : 2);
+      o << " | W " << k << " " << s.at("travelTime").get<long long>() << " " << s.at("distance").get<long long>() << " "
+        << s.at("departureTime").get<long long>() << " " << s.at("arrivalTime").get<long long>() << " "
+        << (s.contains("readyToBoardAt") ? s.at("readyToBoardAt").get<long long>() : -1LL);
+    } else if (a == "boarding") {
+      o << " | B " << idOfUuid(gen(s.at("tripUuid").get<std::string>())) << " " << s.at("legSequenceInTrip").get<long long>() << " "
+        << s.at("stopSequenceInTrip").get<long long>() << " " << idOfUuid(gen(s.at("nodeUuid").get<std::string>())) << " "
+        << s.at("departureTime").get<long long>() << " " << s.at("waitingTime").get<long long>();
+    } else {
+      o << " | U " << idOfUuid(gen(s.at("tripUuid").get<std::string>())) << " " << s.at("legSequenceInTrip").get<long long>() << " "
+        << s.at("stopSequenceInTrip").get<long long>() << " " << idOfUuid(gen(s.at("nodeUuid").get<std::string>())) << " "
+        << s.at("arrivalTime").get<long long>() << " " << s.at("inVehicleTime").get<long long>() << " "
+        << s.at("inVehicleDistance").get<long long>();
+    }
+  }
+  return o.str();
+}
+
+static std::string routeText(const SingleCalculationResult &r) {
+  std::string keep = out.str();
+  out.str(""); out.clear();
+  printRoute(r);
+  std::string t = out.str();
+  out.str(""); out.clear();
+  out << keep;
+  return t;
+}
+
+// appends " | RENDER <what>" to the output when the rendered JSON does not say what the result object says
+static void checkRenderSingle(SingleCalculationResult &res, RouteParameters &params) {
+  try {
+    nlohmann::json j = ResultToV2Response::resultToJsonString(res, params);
+    const auto &routes = j.at("result").at("routes");
+    if (j.at("status").get<std::string>() != "success" || routes.size() != 1) { out << " | RENDER shape"; return; }
+    if (routeTextFromJson(routes.at(0)) != routeText(res)) out << " | RENDER route 0";
+  } catch (std::exception &e) { out << " | RENDER exception"; }
+}
+
+static void checkRenderAlternatives(AlternativesResult &res, RouteParameters &params) {
+  try {
+    nlohmann::json j = ResultToV2Response::resultToJsonString(res, params);
+    const auto &routes = j.at("result").at("routes");
+    if (j.at("status").get<std::string>() != "success" || routes.size() != res.alternatives.size()) { out << " | RENDER shape"; return; }
+    if (j.at("result").at("totalRoutesCalculated").get<long long>() != res.totalAlternativesCalculated) out << " | RENDER totalRoutesCalculated";
+    for (size_t i = 0; i < res.alternatives.size(); i++)
+      if (routeTextFromJson(routes.at(i)) != routeText(*res.alternatives[i])) { out << " | RENDER route " << i; break; }
+  } catch (std::exception &e) { out << " | RENDER exception"; }
+}
+
 static void printOpt() {
   out << " | opt";
   if (g_optlines.empty()) return;
@@ -333,9 +399,11 @@ static std::string doRoute(TransitData &td, const Q &q, int alt, const std::vect
       AlternativesResult res = calc.alternativesRouting(params);
       out << "alt ok " << res.totalAlternativesCalculated << " " << res.alternatives.size();
       for (auto &r : res.alternatives) { out << " || "; printRoute(*r); }
+      checkRenderAlternatives(res, params);
     } else {
       std::unique_ptr<SingleCalculationResult> res = calc.calculateSingle(params);
       printRoute(*res);
+      checkRenderSingle(*res, params);
       printOpt();
     }
   } catch (NoRoutingFoundException &e) {
